@@ -151,6 +151,29 @@ pub fn exercise(out: &mut Out, id: &str, input: &[u8], include_dirs: &[String], 
     }
     let mut cx = Ctx { out, id, input, files, any_ok: false };
 
+    // 0. input that is not UTF-8 reaches the readers as raw bytes (the modern reader takes a byte iterator; include files are
+    //    read as bytes): the modern reader on the bytes, and the bytes as an include file of a small program
+    if std::str::from_utf8(input).is_err() {
+        let raw = input.to_vec();
+        let r = guard(move || chialisp::compiler::sexp::parse_sexp(chialisp::compiler::srcloc::Srcloc::start("*raw*"), raw.iter().copied()).map(|_| ()).map_err(|_| ()));
+        cx.entry("modern_reader_raw_bytes", match r {
+            Ok(Ok(())) => Ok(Ok(())),
+            Ok(Err(())) => Ok(Err(None)),
+            Err(p) => Err(p),
+        });
+        let dir = format!("{}/raw-inc-{}", std::env::temp_dir().display(), std::process::id());
+        if std::fs::create_dir_all(&dir).is_ok() && std::fs::write(format!("{dir}/rawinc.clib"), input).is_ok() {
+            let lossy = String::from_utf8_lossy(input).to_string();
+            cx.files.push((format!("{dir}/rawinc.clib"), lossy.clone()));
+            cx.files.push(("rawinc.clib".to_string(), lossy));
+            for sigil in ["*standard-cl-21*", "*standard-cl-23*"] {
+                let main = format!("(mod (X) (include {sigil}) (include rawinc.clib) X)");
+                cx.entry("include_file_raw_bytes", compile_entry(compile_lib(&main, "*input*", &[dir.clone()], false, false)));
+            }
+            let main = "(mod (X) (include rawinc.clib) X)".to_string();
+            cx.entry("include_file_raw_bytes_classic", compile_entry(compile_lib(&main, "*input*", &[dir.clone()], false, false)));
+        }
+    }
     // 1. compile: library path (optimising) and the CLI derivation, file-name aware
     cx.entry("compile_library_path", compile_entry(compile_lib(&text, &fname, include_dirs, true, false)));
     cx.entry("compile_no_optimise", compile_entry(compile_lib(&text, &fname, include_dirs, false, true)));
@@ -353,6 +376,20 @@ pub fn input_at(seed: u64, shard: u64, i: u64, corpus: &Corpus) -> (Vec<u8>, &'s
             if rng.chance(1, 4) {
                 let t = String::from_utf8_lossy(&m).to_string();
                 m = mutate(&mut rng, &t, &a);
+            }
+            if rng.chance(1, 5) {
+                // bytes that are not UTF-8 (a Latin-1 or damaged file) inside tokens: a digit of a number, or any token character,
+                // replaced by a byte >= 0x80 (half of the time one that Unicode classes as numeric when read as Latin-1)
+                let pos: Vec<usize> = m.iter().enumerate().filter(|(_, b)| b.is_ascii_digit()).map(|(i, _)| i).collect();
+                let pos = if pos.is_empty() || rng.chance(1, 4) { (0..m.len()).filter(|i| m[*i].is_ascii_alphanumeric()).collect() } else { pos };
+                for _ in 0..1 + rng.below(3) {
+                    if pos.is_empty() {
+                        break;
+                    }
+                    let at = pos[rng.below(pos.len())];
+                    m[at] = if rng.chance(1, 2) { *rng.pick(&[0xb2u8, 0xb3, 0xb9, 0xbc, 0xbd, 0xbe]) } else { 0x80 + (rng.below(128) as u8) };
+                }
+                return (m, "mutant_with_non_utf8_bytes");
             }
             (m, "mutant")
         }
